@@ -1202,10 +1202,9 @@ class PerturbedDroplet3D(PerturbedDropletBase):
     @property
     def volume_approx(self) -> float:
         """float: approximate volume to linear order in the perturbation"""
-        volume = spherical.volume_from_radius(self.radius, 3)
-        if len(self.amplitudes) > 0:
-            volume += self.amplitudes[0] * 2 * np.sqrt(np.pi) * self.radius**2
-        return volume
+        # The zero-th mode is not part of `amplitudes` and all modes with l >= 1
+        # integrate to zero over the sphere, so there is no linear contribution
+        return spherical.volume_from_radius(self.radius, 3)
 
 
 class PerturbedDroplet3DAxisSym(PerturbedDropletBase):
@@ -1281,10 +1280,9 @@ class PerturbedDroplet3DAxisSym(PerturbedDropletBase):
     @property
     def volume_approx(self) -> float:
         """float: approximate volume to linear order in the perturbation"""
-        volume = spherical.volume_from_radius(self.radius, 3)
-        if len(self.amplitudes) > 0:
-            volume += self.amplitudes[0] * 2 * np.sqrt(np.pi) * self.radius**2
-        return volume
+        # The zero-th mode is not part of `amplitudes` and all modes with l >= 1
+        # integrate to zero over the sphere, so there is no linear contribution
+        return spherical.volume_from_radius(self.radius, 3)
 
 
 def droplet_from_data(droplet_class: str, data: np.ndarray) -> DropletBase:
